@@ -349,6 +349,20 @@ pub mod arena {
             Box::from_raw(p)
         }
     }
+    /// Box<Commented<SpannedExpr>> over a typed static list-element node (do-block return expression)
+    pub fn cbx(e: Expr) -> Box<Commented<SpannedExpr>> {
+        if native() {
+            return Box::new(Commented::new(Spanned { node: e, span: DSPAN }));
+        }
+        unsafe {
+            let i = CNODES_NEXT - M_CNODES;
+            check(i < N_CNODES, "arena: out of list-element nodes");
+            CNODES_NEXT = M_CNODES + i + 1;
+            let p = (&raw mut CNODES as *mut Commented<SpannedExpr>).add(i);
+            std::ptr::write(p, Commented::new(Spanned { node: e, span: DSPAN }));
+            Box::from_raw(p)
+        }
+    }
     pub fn binop(op: BinaryOp, l: Expr, r: Expr) -> SpannedExpr {
         sp(Expr::BinaryOp { op, left: bx(l), right: bx(r) })
     }
@@ -439,10 +453,24 @@ pub mod arena {
         }
     }
     pub fn call(f: Expr, args: Vec<SpannedExpr>) -> SpannedExpr {
-        sp(Expr::Call { func: bx(f), args })
+        sp(call_e(f, args))
     }
+    /// `Expr::Call { func, args }`.  Kani 0.68 mis-models the *aggregate construction* of this one
+    /// variant (probes::m99b_expr_variant_layout: `func` read back from a freshly built
+    /// `Expr::Call { .. }` is a misaligned non-pointer; every other variant is fine, and field
+    /// projections - all the evaluator uses - are consistent with each other).  The node is
+    /// therefore built from a dummy aggregate whose two fields are then written through
+    /// projections; natively this is an ordinary overwrite (the dummy is empty / leaked).
     pub fn call_e(f: Expr, args: Vec<SpannedExpr>) -> Expr {
-        Expr::Call { func: bx(f), args }
+        let func = bx(f);
+        let mut e = Expr::Call { func: bx(Expr::Null), args: Vec::new() };
+        if let Expr::Call { func: fslot, args: aslot } = &mut e {
+            unsafe {
+                std::ptr::write(fslot, func);
+                std::ptr::write(aslot, args);
+            }
+        }
+        e
     }
 
     /// argument vector / list buffer (Vec<Value>) on the ordinary heap, written **word by word**:
@@ -664,4 +692,40 @@ pub fn stub_evaluate_ast_null(
 /// up bound (the body is cut as well).  Removes hashbrown from those harnesses.
 pub fn stub_hashmap_insert<K, V, S, A: std::alloc::Allocator>(_m: &mut std::collections::HashMap<K, V, S, A>, _k: K, _v: V) -> Option<V> {
     None
+}
+
+/// `FunctionDef::call` replaced by a recorder: stores the call depth the callee receives and
+/// returns `true`.  Used by the C18 propagation harnesses, which compare the depth a callee sees
+/// under a wrapper (conditional, do-block, operator, via/into/where) with the depth it sees for the
+/// bare call; the guard inside the real `call` is decided separately on the real function.
+pub static mut DEPTH_SEEN: usize = 0x5a5a_0000_0000_0001; // never all-zero bytes (see arena)
+pub static mut CALLS_SEEN: usize = 0x5a5a_0000_0000_0000;
+pub const CALLS_SEEN_BASE: usize = 0x5a5a_0000_0000_0000;
+pub fn stub_function_def_call_record_depth(
+    _this: &blots_core::functions::FunctionDef,
+    _this_value: Value,
+    args: Vec<Value>,
+    _heap: Rc<RefCell<Heap>>,
+    _bindings: Rc<Environment>,
+    call_depth: usize,
+    _source: &str,
+) -> Result<Value, blots_core::error::RuntimeError> {
+    unsafe {
+        DEPTH_SEEN = call_depth;
+        CALLS_SEEN += 1;
+    }
+    std::mem::forget(args);
+    Ok(Value::Bool(true)) // acceptable as a `where` predicate result and as a `??` operand
+}
+
+// ---- cuts for the C06 data harnesses: plain data never reaches the function-source machinery ----
+// (each is a failing cut: reaching it for a value without functions fails the check)
+pub fn stub_get_pairs_cut(_input: &str) -> Result<pest::iterators::Pairs<'_, blots_core::parser::Rule>, pest::error::Error<blots_core::parser::Rule>> {
+    panic!("verif-cut: the parser was reached while loading plain data")
+}
+pub fn stub_expr_to_source_with_scope_cut(_e: &SpannedExpr, _scope: &indexmap::IndexMap<String, blots_core::values::SerializableValue>) -> String {
+    panic!("verif-cut: function-source emission was reached while serialising plain data")
+}
+pub fn stub_parse_function_source_cut(_source: &str) -> anyhow::Result<blots_core::values::SerializableLambdaDef> {
+    panic!("verif-cut: function-source parsing was reached while reading plain data")
 }
